@@ -71,9 +71,11 @@ def run(ctx):
 
     # (2) transition cover replayed on the real code
     total_edges = total_steps = 0
-    nk = 4 if ctx.quick else 5
-    for mode in ("dict", "set"):
-        n, steps, mism, operands, sample = edge_cover(ctx, mode, nk, 1)
+    # (5 keys with path emission is 3.6M transitions with their paths: it did not finish in 50 min;
+    # thorough therefore covers both hash assignments at 4 keys instead)
+    nk = 4
+    for mode, hsel in [("dict", 1), ("set", 1)] + ([] if ctx.quick else [("dict", 2), ("set", 2)]):
+        n, steps, mism, operands, sample = edge_cover(ctx, mode, nk, hsel)
         total_edges += n
         total_steps += steps
         ctx.samples.append({"mode": mode, "edge [path, state after, result]": json.loads(sample)})
@@ -83,7 +85,7 @@ def run(ctx):
             last = edge[0][-1]
             what = mm["what"].split(":")[0]
             sig = "%s:%s/%s/%s" % (mode, OPNAMES.get(last[0], last[0]), mm["route"], what)
-            if sig in seen:
+            if sig in seen or any(v[0] == sig for v in ctx.violations):
                 continue
             seen.add(sig)
             # re-execute this edge alone
